@@ -14,12 +14,68 @@ import common  # noqa: E402
 from common import Ctx, ModelError, finish, log, prove  # noqa: E402
 
 
+def _interpreter_variants(ctx: Ctx, prop: str, tier: str) -> None:
+    """The runtime environment as an input: a bounded repeat of the correspondence run and the oracle in a
+    child interpreter started with -O (assert statements and `if __debug__` blocks are compiled away), so that a
+    check which the code under test expresses as an `assert` is seen for what it is under the interpreter
+    flags an application may legitimately run with (judged by the property oracle only; the model-vs-code diff of
+    the variant run is recorded as a note, never reported).  Failures found there are ordinary failures whose replay
+    records `python_flags`; `--replay` re-runs them under the same flags.  Skipped when the normal run has
+    already found a failing input (nothing to add) or with VERIF_NO_VARIANTS=1."""
+    import subprocess
+    import tempfile
+
+    if os.environ.get("VERIF_NO_VARIANTS") == "1" or sys.flags.optimize:
+        return
+    known = common.load_known(prop)
+    if any(f.signature not in known for f in ctx.failures):
+        return
+    fd, out = tempfile.mkstemp(prefix=f"verif-subrun-{prop}-", suffix=".json")
+    os.close(fd)
+    try:
+        t0 = __import__("time").time()
+        p = subprocess.run(
+            [sys.executable, "-O", __file__, prop, "--tier", tier, "--no-proof", "--subrun", out],
+            capture_output=True, text=True, timeout=900 if tier == "quick" else 3000,
+            env=dict(os.environ, VERIF_NO_VARIANTS="1"),
+        )
+        try:
+            res = json.loads(Path(out).read_text())
+        except Exception:
+            ctx.stats.notes.append(f"python -O repeat produced no result (exit {p.returncode}): {p.stderr[-300:]}")
+            return
+        ctx.stats.hit("op", "variant:python-O evaluations", int(res.get("evaluations") or 0))
+        ctx.stats.notes.append(
+            f"python -O repeat: {res.get('evaluations')} evaluations, {len(res.get('failures', []))} oracle failures, "
+            f"{res.get('n_disagreements')} disagreements, {__import__('time').time() - t0:.1f}s"
+        )
+        if res.get("error"):
+            ctx.stats.notes.append("python -O repeat: " + str(res["error"])[:300])
+        for f in res.get("failures", []):
+            rep = f["replay"]
+            if isinstance(rep, dict):
+                rep = dict(rep, python_flags="-O")
+            ctx.fail(f["signature"], f["description"] + " [found under python -O]", rep, size=f.get("size"))
+        # Model-vs-code differences seen under -O are NOT merged: the Lean model is a model of the code under the
+        # default interpreter (an `assert` is a raise there), and /repo itself contains type-narrowing asserts whose
+        # removal changes WHICH refusal is sent (e.g. POST /pairings on an unverified connection: 500 by default,
+        # 200 + TLV error under -O).  Only the property oracle judges the variant run.
+    except subprocess.TimeoutExpired:
+        ctx.stats.notes.append("python -O repeat timed out (not judged)")
+    finally:
+        try:
+            os.unlink(out)
+        except OSError:
+            pass
+
+
 def main() -> int:
     ap = argparse.ArgumentParser()
     ap.add_argument("prop")
     ap.add_argument("--tier", default=os.environ.get("VERIF_TIER", "quick"), choices=["quick", "thorough"])
     ap.add_argument("--replay")
     ap.add_argument("--no-proof", action="store_true", help="skip the Lean build (debugging only)")
+    ap.add_argument("--subrun", help="(internal) run under an interpreter variant, dump failures to this file")
     args = ap.parse_args()
     prop = args.prop.upper()
     seed = int(os.environ.get("VERIF_SEED", "0") or 0)
@@ -54,7 +110,37 @@ def main() -> int:
 
     if args.replay:
         payload = json.loads(Path(args.replay).read_text())
-        return mod.replay(ctx, payload.get("replay", payload))
+        rep = payload.get("replay", payload)
+        flags = rep.get("python_flags") if isinstance(rep, dict) else None
+        if flags == "-O" and not sys.flags.optimize:
+            # the failing input needs the interpreter variant it was found under
+            import subprocess
+
+            print("replaying under python -O (assert statements are compiled away)")
+            sys.stdout.flush()
+            return subprocess.call([sys.executable, "-O", __file__, prop, "--replay", args.replay])
+        return mod.replay(ctx, rep)
+
+    if args.subrun:
+        # interpreter-variant repeat (see _interpreter_variants): correspondence + oracle only, bounded budget
+        ctx.budget_scale = float(os.environ.get("VERIF_SUBRUN_SCALE", "0.3"))
+        err = None
+        try:
+            mod.run(ctx)
+        except ModelError as ex:
+            err = "model driver failed: " + str(ex)[-300:]
+        except Exception:  # the variant run is best effort: report, never judge
+            err = "harness raised: " + traceback.format_exc()[-600:]
+        Path(args.subrun).write_text(json.dumps({
+            "failures": [{"signature": f.signature, "description": f.description, "replay": f.replay,
+                          "size": getattr(f, "size", None)} for f in ctx.failures],
+            "disagreements": [{"stream": d.stream, "case": d.case, "model": d.model, "impl": d.impl}
+                              for d in ctx.disagreements[:5]],
+            "n_disagreements": len(ctx.disagreements),
+            "evaluations": ctx.stats.evaluations,
+            "error": err,
+        }, default=str))
+        return 0
 
     try:
         if hasattr(mod, "extract"):
@@ -71,6 +157,7 @@ def main() -> int:
             if proof is not None and proof.ok:
                 proof.ok = False
                 proof.problems.append("model driver failed: " + str(ex)[-300:])
+        _interpreter_variants(ctx, prop, args.tier)
         return finish(
             ctx,
             proof,
